@@ -187,7 +187,7 @@ fn dec_payload<'a>(t: &Table, enc: &Enc, p: &'a [u8]) -> DR<'a, Val> {
             let (Some(d), Some(tm)) = (date, time) else { return Err(DErr::Incomplete) };
             let (y, mo, dd) = ((d / 10000) as i32, (d / 100 % 100) as u32, (d % 100) as u32);
             let (h, mi, s) = ((tm / 10000) as u32, (tm / 100 % 100) as u32, (tm % 100) as u32);
-            if d > 99991231 || mo == 0 || mo > 12 || dd == 0 || dd > days_in_month(y, mo) || h > 23 || mi > 59 || s > 59 { return Err(DErr::Bad("calendar".into())); }
+            if tm > 235959 || d > 99991231 || mo == 0 || mo > 12 || dd == 0 || dd > days_in_month(y, mo) || h > 23 || mi > 59 || s > 59 { return Err(DErr::Bad("calendar".into())); }
             Ok((Val::Dt(y, mo, dd, h, mi, s), b))
         }
         Enc::Struct(n) => dec_struct_body(t, &t[n], p),
